@@ -7,12 +7,19 @@
    slices, maps refer to heap cells by address, an interface value holds another value
    (in conf: OptionalPath.Values holds a pointer to a struct of optional fields).
 
-   Layer 1 (code-shaped):   CloneOf = deepClone kind by kind; Get = clone, redact through the
-                            clone, render; WriteBack = decode, patch.
-        Named deviations of the code from the ideal, switchable by constants:
-          IfaceDeep = FALSE     "InterfaceSharedByClone": deepClone has no reflect.Interface case
-          ExactSize = FALSE     "SizeRenderingRounds":    bytefmt.ByteSize keeps one decimal
-          RedactOnCopy = FALSE  redaction through the live store (not the code as read; mutant)
+   Layer 1 (code-shaped):   CloneOf = deepClone kind by kind (Pointer, Struct, Slice, Map, Interface);
+                            Get = clone, redact through the clone, render; WriteBack = decode, patch.
+        The constants below select the CURRENT code when TRUE (all check configurations use TRUE). Each
+        FALSE value is a named regression: a behaviour the code once had (fixed in /repo by 8aad5d9,
+        efb98fd) or a plausible slip, kept switchable so that, if it comes back, it has a name and a
+        ready counterexample (ConfStore_ifaceshared.cfg, ConfStore_sizerounds.cfg, ConfStore_inplace.cfg
+        must each VIOLATE their invariant; the thorough tier checks that they still do):
+          IfaceDeep = TRUE      deepClone follows reflect.Interface (OptionalPath.Values is copied)
+                    = FALSE     "InterfaceSharedByClone": no Interface case, Values shared with the clone
+          ExactSize = TRUE      StringSize renders exactly ("<n>B" when one decimal of the unit is lossy)
+                    = FALSE     "SizeRenderingRounds": bytefmt.ByteSize alone, 1234567 -> "1.2M" -> 1258291
+          RedactOnCopy = TRUE   redactCredentials works on a clone of the live configuration
+                    = FALSE     "RedactInPlace": redaction through the live store
    Layer 2 (from the statements):
           CloneIndependent  no mutation through the copy changes what the original reads   (C11)
           NoSharedCell      original and copy reach no common mutable cell                 (C11)
@@ -46,7 +53,9 @@ Free      == [c |-> "free"]
 
 Placeholder == "REDACTED"
 Secrets     == {"SECRET1", "SECRET2", "SECRET3"}
-Rounded(v)  == IF v = "1234567" THEN "1258291" ELSE v     \* the only inexact size of the abstract tree
+\* what one decimal of the unit makes of a size (regression SizeRenderingRounds only); 1234567 is the
+\* only size of the abstract tree that one decimal cannot express
+Rounded(v)  == IF v = "1234567" THEN "1258291" ELSE v
 
 \* ---------------------------------------------------------------- the abstract tree
 \* g      scalar global field (a duration)            -- Conf.ReadTimeout
@@ -207,7 +216,8 @@ Relabel(v) ==
     CASE v.k = "s"  -> v
       [] v.k = "st" -> [v EXCEPT !.f = [n \in DOMAIN v.f |-> Relabel(v.f[n])]]
       [] v.k \in {"p", "l", "m"} -> IF v.a = 0 THEN v ELSE [v EXCEPT !.a = v.a + N]
-      [] v.k = "i"  -> IF IfaceDeep THEN [v EXCEPT !.x = Relabel(v.x)] ELSE v    \* default: return rv
+      [] v.k = "i"  -> IF IfaceDeep THEN [v EXCEPT !.x = Relabel(v.x)]             \* case reflect.Interface
+                       ELSE v                                                     \* regression: default: return rv
 
 RelabelCell(c) ==
     CASE c.c = "p" -> [c EXCEPT !.x = Relabel(c.x)]
@@ -345,7 +355,9 @@ IndependentObs(r) == r.origBefore = r.origAfter /\ ~r.shared
 RejectedObs(r) == r.rejected => r.liveBefore = r.liveAfter
 \* C08: one parameter of a valid configuration through encode (as the API returns it) and decode + patch
 \* (`after`), and, when the written-back edit was accepted, after it was applied as Core applies it
-\* (`afterApplied`): "yields an equal configuration ... so writing back what was read is a no-op"
+\* (`afterApplied`): "yields an equal configuration ... so writing back what was read is a no-op".
+\* A nil list and an empty list are the same configuration value (both mean "no entries" to every
+\* consumer; the API renders both as [] since 06a23a0): the harness renders them alike in before/after.
 RoundTripObs(r) == r.valid => (/\ r.encErr = "" /\ r.decErr = "" /\ r.before = r.after
                                   /\ (r.applied => r.before = r.afterApplied))
 \* C07: one secret position seen through one API response
